@@ -265,7 +265,11 @@ RepOf(e, old, k, s) ==
       applied |-> (IF old.has /\ old.sess = sess THEN old.applied ELSE {}) \cup own,
       epoch |-> IF old.has /\ old.sess = sess THEN old.epoch ELSE s.epoch[k[2]],
       seenlam |-> IF old.has /\ old.sess = sess THEN old.seenlam ELSE 0,
-      seenvv |-> IF old.has /\ old.sess = sess THEN old.seenvv ELSE <<>>]
+      seenvv |-> IF old.has /\ old.sess = sess THEN old.seenvv ELSE <<>>,
+      undon |-> r.undon, ncontent |-> r.ncontent,
+      \* C14 ghost: contents to return to by undo / redo (valid while no remote operation interferes)
+      past |-> IF old.has /\ old.sess = sess THEN old.past ELSE <<>>,
+      future |-> IF old.has /\ old.sess = sess THEN old.future ELSE <<>>]
 
 \* apply one response to the ghost applied-set of replica rp (doc d)
 ApplyResp(s, d, rp, rs) ==
@@ -304,7 +308,12 @@ ClientStep(s, e) ==
       dup == \E i \in DOMAIN rss : rss[i].ok /\ ~rss[i].snap /\ old.has /\ base.has /\ old.sess = base.sess /\
                \E j \in Range(rss[i].pulled) : j >= 1 /\ j <= Len(s.log[d]) /\ s.log[d][j].id \in old.applied
                                                /\ s.log[d][j].id[1] # e.c
-      new == IF hasrep /\ e.ok THEN ApplyAll(s, d, base, rss) ELSE base
+      new0 == IF hasrep /\ e.ok THEN ApplyAll(s, d, base, rss) ELSE base
+      \* a snapshot or a remote operation may move what the stacked reverse operations refer to:
+      \* exact restoration is promised only without concurrent remote changes (C14)
+      gotRemote == \E i \in DOMAIN rss : rss[i].ok /\ (rss[i].snap \/ \E j \in Range(rss[i].pulled) :
+                       j >= 1 /\ j <= Len(s.log[d]) /\ s.log[d][j].nops > 0)
+      new == IF new0.has /\ gotRemote THEN [new0 EXCEPT !.past = <<>>, !.future = <<>>] ELSE new0
       expfail == ExpectedFailure(s, e, k, rss)
       v == Chk(e.ok \/ expfail, "SyncNeverFails") \cup
            Chk(~dup, "DeliveredOnce") \cup
@@ -397,17 +406,39 @@ EditStep(s, e) ==
       new2 == IF made /\ last[2] # 0
               THEN [new EXCEPT !.seenlam = Max2(@, last[2]), !.seenvv = VVMax(@, new.vv)]
               ELSE new
+      \* C14: undo returns to the content before the edit, redo to the content after it
+      pushed == e.ev = "Edit" /\ e.ok /\ old.has /\ new.undon = old.undon + 1
+      undone == e.ev = "Undo" /\ e.ok /\ old.has /\ new.undon = old.undon - 1 /\ old.past # <<>>
+      redone == e.ev = "Redo" /\ e.ok /\ old.has /\ new.undon = old.undon + 1 /\ old.future # <<>>
+      undoExact == undone => new.ncontent = old.past[Len(old.past)]
+      redoExact == redone => new.ncontent = old.future[Len(old.future)]
+      past2 == IF pushed THEN Append(old.past, old.ncontent)
+               ELSE IF undone THEN SubSeq(old.past, 1, Len(old.past) - 1)
+               ELSE IF redone THEN Append(old.past, old.ncontent)
+               ELSE IF old.has /\ e.ev \in {"Undo", "Redo"} /\ new.undon # old.undon THEN <<>>
+               ELSE IF old.has THEN old.past ELSE <<>>
+      future2 == IF pushed THEN (IF new.redo THEN old.future ELSE <<>>)
+                 ELSE IF undone THEN (IF new.redo THEN Append(old.future, old.ncontent) ELSE <<>>)
+                 ELSE IF redone THEN SubSeq(old.future, 1, Len(old.future) - 1)
+                 ELSE IF old.has /\ new.redo THEN old.future ELSE <<>>
       v == Chk(atomic, "UpdateAtomic") \cup Chk(causal, "Causal") \cup
+           Chk(undoExact, "UndoExact") \cup Chk(redoExact, "RedoExact") \cup
            (IF e.ev = "Edit" THEN Chk(LocalSemantics(e), "LocalSemantics") \cup Chk(ViewConsistent(e), "ViewConsistent")
                                   \cup Chk(FailedKeepsView(e), "FailedKeepsView") ELSE {}) \cup
            Chk(e.ev = "Edit" => (e.ok \/ e.fail # ""), "EditNeverFails") \cup
            Chk(e.ev \in {"Undo", "Redo"} => e.ok, "UndoRedoNeverFails")
-  IN R([s EXCEPT !.rep = Upd(@, k, new2)], v)
+  IN R([s EXCEPT !.rep = Upd(@, k, [new2 EXCEPT !.past = past2, !.future = future2])], v)
 
 \* ---- Ref: reference replica advances by one row ------------------------
 RefStep(s, e) ==
   LET d == e.d
       v == Chk(e.ok, "LogReplayable") \cup Chk(e.s = Len(s.ref[d]) + 1, "RefDense") \cup
+           \* C09: the row decoded from storage/wire behaves like the change object its author made
+           Chk((e.ok /\ Has(e, "dok")) => (e.dok /\ e.dcontent = e.content /\ e.dgarbage = e.garbage), "WireTransparent") \cup
+           \* C09: snapshot bytes round trip keeps content and garbage
+           Chk((e.ok /\ Has(e, "snap_ok")) => (e.snap_ok /\ e.snap_content = e.content /\ e.snap_garbage = e.garbage), "SnapshotBytesTransparent") \cup
+           \* C18: YSON export -> text -> parse -> import -> export is the identity
+           Chk((e.ok /\ Has(e, "yson_ok")) => (e.yson_ok /\ e.yson_before = e.yson_after), "YsonRoundTrip") \cup
            \* C10: after a compaction the rebuilt log yields the content from before
            Chk((s.pre[d].has /\ e.s = Len(s.log[d])) => e.content = s.pre[d].content, "CompactionKeepsContent")
       s2 == [s EXCEPT !.ref = Upd(@, d, Append(@[d], [content |-> e.content, pres |-> e.pres])),
